@@ -105,6 +105,10 @@ class RtlReader(object):
 
                     msgbin.append(c)
 
+                    # the first bit of the DF gives the message length
+                    if len(msgbin) == (fbits if msgbin[0] else fbits // 2):
+                        break
+
                 # advance i with a jump
                 i = frame_start + j
 
